@@ -981,6 +981,49 @@ class _N4(ast.NodeTransformer):
 
 # ------------------------------------------------------------------ N6 --------
 
+def n4b_ifexp_assign(fnode, base_hashes):
+    """`x = A if c else B` that the pinned tree does not have ->
+    `if c: x = A` / `else: x = B`  (the inverse of "use a conditional
+    expression"); also `return A if c else B`"""
+    import hashlib
+
+    def h(st):
+        return hashlib.sha1(ast.dump(st).encode('utf-8', 'replace')) \
+            .hexdigest()[:12]
+    changed = [False]
+
+    def do_list(stmts):
+        out = []
+        for st in stmts:
+            for fld in ('body', 'orelse', 'finalbody'):
+                sub = getattr(st, fld, None)
+                if isinstance(sub, list) and not isinstance(
+                        st, (ast.FunctionDef, ast.AsyncFunctionDef,
+                             ast.ClassDef)):
+                    setattr(st, fld, do_list(sub))
+            for hd in getattr(st, 'handlers', []) or []:
+                hd.body = do_list(hd.body)
+            if isinstance(st, (ast.Assign, ast.Return)) and \
+                    isinstance(st.value, ast.IfExp) and \
+                    h(st) not in base_hashes:
+                def mk(v):
+                    n = ast.Return(value=v) if isinstance(st, ast.Return) \
+                        else ast.Assign(targets=[clone(t) for t in
+                                                 st.targets], value=v)
+                    return ast.copy_location(n, st)
+                iff = ast.If(test=st.value.test, body=[mk(st.value.body)],
+                             orelse=[mk(st.value.orelse)])
+                ast.copy_location(iff, st)
+                ast.fix_missing_locations(iff)
+                out.append(iff)
+                changed[0] = True
+            else:
+                out.append(st)
+        return out
+    fnode.body = do_list(fnode.body)
+    return changed[0]
+
+
 def n6b_adjacent_temps(fnode, keep=()):
     """a NEW local that is bound several times, where EVERY read sits in the
     statement right after one of its bindings (same block) and reads it
@@ -1055,6 +1098,299 @@ def n6b_adjacent_temps(fnode, keep=()):
             stmts[i + 1] = ast.copy_location(Sub().visit(nxt), nxt)
             del stmts[i]
             changed = True
+    return changed
+
+
+_VALUE_PURE_CALLS = {'len', 'isinstance', 'str', 'bytes', 'int', 'bool',
+                     'min', 'max', 'abs', 'tuple', 'divmod', 'ord', 'chr'}
+_VALUE_PURE_METHODS = {'endswith', 'startswith', 'lower', 'upper', 'strip',
+                       'rstrip', 'lstrip', 'get', 'group', 'groups', 'find',
+                       'rfind', 'index', 'count', 'isdigit', 'matches',
+                       'match', 'search', 'join', 'decode', 'encode',
+                       'format', 'split', 'start', 'end', 'span'}
+
+
+def _value_pure(e):
+    """evaluating e twice gives the same value and has no effect: names,
+    constants, operators, subscripts, attribute reads, and calls of a small
+    set of pure builtins / string / match methods"""
+    for x in ast.walk(e):
+        if isinstance(x, (ast.Yield, ast.YieldFrom, ast.Await, ast.NamedExpr,
+                          ast.Lambda, ast.ListComp, ast.SetComp, ast.DictComp,
+                          ast.GeneratorExp, ast.List, ast.Dict, ast.Set,
+                          ast.Starred)):
+            return False
+        if isinstance(x, ast.Call):
+            f = x.func
+            if isinstance(f, ast.Name) and f.id in _VALUE_PURE_CALLS:
+                continue
+            if isinstance(f, ast.Attribute) and f.attr in _VALUE_PURE_METHODS:
+                continue
+            return False
+    return True
+
+
+_BASE_STMTS = {}
+
+
+def _stmt_hashes(f):
+    """statement hashes the pinned tree has in this function (empty when
+    the function is new or the fingerprint is unavailable)"""
+    if 'fp' not in _BASE_STMTS:
+        try:
+            from . import churn
+            _BASE_STMTS['fp'] = churn.load_baseline()
+        except Exception:
+            _BASE_STMTS['fp'] = {}
+    fp = _BASE_STMTS['fp']
+    try:
+        rel = f.module.relpath
+    except Exception:
+        return ()
+    return set(fp.get(rel, {}).get(f.qualname, {}))
+
+
+class _SliceOfSlice(ast.NodeTransformer):
+    """X[a:][b:c] -> X[a+b:a+c]  (a: a name plus/minus a constant, or a
+    non-negative constant; b, c non-negative constants) -- what inlining
+    `rest = X[a:]` into `rest[b:c]` leaves behind"""
+
+    @staticmethod
+    def _offset_ok(a):
+        if isinstance(a, ast.Constant):
+            return isinstance(a.value, int) and a.value >= 0
+        if isinstance(a, ast.Name):
+            return True
+        return isinstance(a, ast.BinOp) and isinstance(
+            a.op, (ast.Add, ast.Sub)) and isinstance(a.left, ast.Name) and \
+            isinstance(a.right, ast.Constant) and \
+            isinstance(a.right.value, int)
+
+    @staticmethod
+    def _plus(a, k):
+        if k == 0:
+            return clone(a)
+        if isinstance(a, ast.Constant):
+            return ast.Constant(value=a.value + k)
+        if isinstance(a, ast.BinOp) and isinstance(a.right, ast.Constant):
+            base = a.right.value if isinstance(a.op, ast.Add) \
+                else -a.right.value
+            tot = base + k
+            if tot == 0:
+                return clone(a.left)
+            return ast.BinOp(left=clone(a.left),
+                             op=ast.Add() if tot > 0 else ast.Sub(),
+                             right=ast.Constant(value=abs(tot)))
+        return ast.BinOp(left=clone(a), op=ast.Add(),
+                         right=ast.Constant(value=k))
+
+    def visit_Subscript(self, n):
+        n = self.generic_visit(n)
+        inner = n.value
+        if isinstance(inner, ast.Subscript) and \
+                isinstance(inner.slice, ast.Slice) and \
+                inner.slice.upper is None and inner.slice.step is None and \
+                inner.slice.lower is not None and \
+                self._offset_ok(inner.slice.lower) and \
+                isinstance(n.slice, ast.Slice) and n.slice.step is None:
+            lo, hi = n.slice.lower, n.slice.upper
+            b = 0 if lo is None else (lo.value if isinstance(
+                lo, ast.Constant) and isinstance(lo.value, int) and
+                lo.value >= 0 else None)
+            c = hi.value if isinstance(hi, ast.Constant) and isinstance(
+                hi.value, int) and hi.value >= 0 else None
+            if b is not None and c is not None:
+                a = inner.slice.lower
+                return ast.copy_location(ast.Subscript(
+                    value=inner.value,
+                    slice=ast.Slice(lower=self._plus(a, b),
+                                    upper=self._plus(a, c), step=None),
+                    ctx=n.ctx), n)
+        return n
+
+
+def n6c_multi_use_temps(fnode, keep=()):
+    """a NEW local bound exactly once (a plain statement `t = E`, E pure and
+    repeatable) and read several times later in the same function, where
+    nothing E reads is re-bound between the binding and the last read and
+    binding and reads share the innermost enclosing loop: every read is
+    replaced by E.  (The inverse of "name this sub-expression".)"""
+    params = {a.arg for a in fnode.args.args + fnode.args.kwonlyargs +
+              fnode.args.posonlyargs}
+    if fnode.args.vararg:
+        params.add(fnode.args.vararg.arg)
+    if fnode.args.kwarg:
+        params.add(fnode.args.kwarg.arg)
+    stores, loads = {}, {}
+    for n in _own_walk(fnode):
+        if isinstance(n, ast.Name):
+            d = stores if isinstance(n.ctx, (ast.Store, ast.Del)) else loads
+            d.setdefault(n.id, []).append(n)
+    # innermost loop of every statement
+    loop_of = {}
+
+    def mark(stmts, loop):
+        for st in stmts:
+            for x in ast.walk(st) if not isinstance(
+                    st, (ast.For, ast.While, ast.If, ast.With, ast.Try)) \
+                    else [st]:
+                loop_of[id(x)] = loop
+            if isinstance(st, (ast.For, ast.While)):
+                for x in ast.walk(st.iter if isinstance(st, ast.For)
+                                  else st.test):
+                    loop_of[id(x)] = loop if isinstance(st, ast.For) else st
+                if isinstance(st, ast.For):
+                    for x in ast.walk(st.target):
+                        loop_of[id(x)] = st
+                mark(st.body, st)
+                mark(st.orelse, loop)
+            elif isinstance(st, ast.If):
+                for x in ast.walk(st.test):
+                    loop_of[id(x)] = loop
+                mark(st.body, loop)
+                mark(st.orelse, loop)
+            elif isinstance(st, ast.With):
+                for it in st.items:
+                    for x in ast.walk(it):
+                        loop_of[id(x)] = loop
+                mark(st.body, loop)
+            elif isinstance(st, ast.Try):
+                mark(st.body, loop)
+                for h in st.handlers:
+                    mark(h.body, loop)
+                mark(st.orelse, loop)
+                mark(st.finalbody, loop)
+    mark(fnode.body, None)
+    changed = False
+    # (If node id, branch) ancestors of every node: two nodes in different
+    # branches of one `if` never lie on one path of a single iteration
+    branch = {}
+
+    def paths(stmts, anc):
+        for st in stmts:
+            if isinstance(st, ast.If):
+                for x in ast.walk(st.test):
+                    branch[id(x)] = anc
+                branch[id(st)] = anc
+                paths(st.body, anc + ((id(st), 0),))
+                paths(st.orelse, anc + ((id(st), 1),))
+                continue
+            branch[id(st)] = anc
+            subs = []
+            for fld in ('body', 'orelse', 'finalbody'):
+                sub = getattr(st, fld, None)
+                if isinstance(sub, list) and not isinstance(
+                        st, (ast.FunctionDef, ast.AsyncFunctionDef,
+                             ast.ClassDef)):
+                    subs.append(sub)
+            for h in getattr(st, 'handlers', []) or []:
+                subs.append(h.body)
+            inner = {id(y) for sub in subs for s2 in sub
+                     for y in ast.walk(s2)}
+            for x in ast.walk(st):
+                if id(x) not in inner:
+                    branch[id(x)] = anc
+            for sub in subs:
+                paths(sub, anc)
+    paths(fnode.body, ())
+
+    def exclusive(a, b):
+        pa, pb = dict(branch.get(id(a), ())), dict(branch.get(id(b), ()))
+        return any(k in pb and pb[k] != v for k, v in pa.items())
+
+    def assigns(stmts):
+        for st in stmts:
+            if isinstance(st, ast.Assign) and len(st.targets) == 1 and \
+                    isinstance(st.targets[0], ast.Name):
+                yield stmts, st
+            for fld in ('body', 'orelse', 'finalbody'):
+                sub = getattr(st, fld, None)
+                if isinstance(sub, list) and not isinstance(
+                        st, (ast.FunctionDef, ast.AsyncFunctionDef,
+                             ast.ClassDef)):
+                    for r in assigns(sub):
+                        yield r
+            for h in getattr(st, 'handlers', []) or []:
+                for r in assigns(h.body):
+                    yield r
+    for (block, st) in list(assigns(fnode.body)):
+        v = st.targets[0].id
+        if v in keep or v in params or len(stores.get(v, ())) != 1 or \
+                len(loads.get(v, ())) < 2:
+            continue
+        if not _value_pure(st.value):
+            continue
+        line0 = st.lineno
+        uses = loads[v]
+        if any(getattr(u, 'lineno', 0) < line0 for u in uses):
+            continue
+        last = max(getattr(u, 'end_lineno', getattr(u, 'lineno', 0))
+                   for u in uses)
+        my_loop = loop_of.get(id(st.targets[0]))
+        if any(loop_of.get(id(u)) is not my_loop for u in uses):
+            continue
+        free = {x.id for x in ast.walk(st.value) if isinstance(x, ast.Name)}
+        if v in free:
+            continue
+        clash = False
+
+        def reaches_a_use(node):
+            ln = getattr(node, 'lineno', 0)
+            return any(line0 < ln <= getattr(u, 'lineno', 0) and
+                       not exclusive(node, u) for u in uses)
+        for nm in free:
+            for sx in stores.get(nm, ()):
+                if reaches_a_use(sx):
+                    clash = True
+                # a loop variable / value re-bound by the enclosing loop of
+                # the reads is fine only when the temp is re-bound with it
+                # (same loop: checked above)
+        # attributes / subscripts read by E must not be stored in between
+        call_funcs = {id(x.func) for x in ast.walk(st.value)
+                      if isinstance(x, ast.Call)}
+        heap = [ast.unparse(x) for x in ast.walk(st.value)
+                if isinstance(x, (ast.Attribute, ast.Subscript)) and
+                id(x) not in call_funcs]
+        if heap:
+            for x in _own_walk(fnode):
+                if isinstance(x, (ast.Attribute, ast.Subscript)) and \
+                        isinstance(x.ctx, (ast.Store, ast.Del)) and \
+                        reaches_a_use(x):
+                    clash = True
+                if isinstance(x, ast.Call) and not _value_pure(x) and \
+                        reaches_a_use(x):
+                    clash = True
+        if clash:
+            continue
+        val = st.value
+
+        class Sub(ast.NodeTransformer):
+            def visit_Name(self, n):
+                if n.id == v and isinstance(n.ctx, ast.Load):
+                    return ast.copy_location(clone(val), n)
+                return n
+        for i, s2 in enumerate(fnode.body):
+            fnode.body[i] = _SliceOfSlice().visit(Sub().visit(s2))
+        # drop the binding
+        def drop(stmts):
+            for i, s2 in enumerate(list(stmts)):
+                if s2 is st:
+                    del stmts[i]
+                    if not stmts:
+                        stmts.append(ast.copy_location(ast.Pass(), st))
+                    return True
+                for fld in ('body', 'orelse', 'finalbody'):
+                    sub = getattr(s2, fld, None)
+                    if isinstance(sub, list) and drop(sub):
+                        return True
+                for h in getattr(s2, 'handlers', []) or []:
+                    if drop(h.body):
+                        return True
+            return False
+        drop(fnode.body)
+        changed = True
+        # positions changed: recompute on the next round
+        return True
     return changed
 
 
@@ -1559,8 +1895,16 @@ def normalise(model, stats=None):
             if n6_single_use_temps(f.node, keep):
                 count['N6'] = count.get('N6', 0) + 1
                 any_change = True
+            if n4b_ifexp_assign(f.node, _stmt_hashes(f)):
+                count['N4b'] = count.get('N4b', 0) + 1
+                any_change = True
             while n6b_adjacent_temps(f.node, keep):
                 count['N6b'] = count.get('N6b', 0) + 1
+                any_change = True
+            guard = 0
+            while guard < 20 and n6c_multi_use_temps(f.node, keep):
+                guard += 1
+                count['N6c'] = count.get('N6c', 0) + 1
                 any_change = True
             if n5_unroll_tables(f.node, keep):
                 count['N5'] = count.get('N5', 0) + 1
